@@ -269,7 +269,36 @@ func checkCopyRows(c *Ctx) {
 				for _, st := range cc.Body {
 					if as, ok := st.(*ast.AssignStmt); ok && appendsTo(dst)(as) {
 						top = true
+						break
 					}
+					// a jump out of the case before the column was appended
+					ast.Inspect(st, func(k ast.Node) bool {
+						if _, isLit := k.(*ast.FuncLit); isLit {
+							return false
+						}
+						br, isBr := k.(*ast.BranchStmt)
+						if !isBr {
+							return true
+						}
+						leaves := br.Label != nil || br.Tok == token.GOTO
+						switch br.Tok {
+						case token.BREAK:
+							tgt := enclosing(pmBody, br, func(n ast.Node) bool {
+								switch n.(type) {
+								case *ast.ForStmt, *ast.RangeStmt, *ast.SwitchStmt, *ast.TypeSwitchStmt, *ast.SelectStmt:
+									return true
+								}
+								return false
+							})
+							leaves = leaves || tgt == ast.Node(ts)
+						case token.CONTINUE:
+							leaves = leaves || enclosing(pmBody, br, isLoop) == ast.Node(loop)
+						}
+						if leaves {
+							bad = "the `" + br.Tok.String() + "` at " + c.pos(br.Pos()) + " leaves the case before the column is added to the copy"
+						}
+						return true
+					})
 				}
 				if top {
 					continue
@@ -502,8 +531,12 @@ func runC01(c *Ctx) {
 
 	c.Rule("R01e", "index key parts: wherever a planner prints a key part from IndexPart.C / IndexPart.X, the descending flag is consulted on every path to the end of that function (directly or by handing the part to a helper): an expression part keeps its DESC", 2)
 	c.Rule("R01f", "sqlite Normalize: every successful return is preceded by the normalisation of generated index names (the loop over the desired table's indexes calling normalizeIdxName), so differ and planner agree on the names of UNIQUE-constraint indexes", 1)
+	c.Rule("R01g", "SQLite default comparison is exact: in the SQLite differ a literal obtained from sqlx.Unquote is never passed to a case- or space-folding function (strings.EqualFold/ToLower/ToUpper/Trim*/Fields, unicode.*): two defaults that differ only in the letter case of a string literal are different defaults", 2)
+	c.Rule("R01h", "mode agreement: every computeDiff call of the CLI receives the option list built by diffOptions(), and diffOptions() includes schema.DiffNormalized(): `schema apply` and `schema diff` compare in the same (normalized) mode", 3)
 	checkIndexPartDesc(c)
 	checkNormalizeAllPhases(c)
+	checkExactDefaults(c)
+	checkDiffMode(c)
 	for _, pp := range []string{pSqlite, pMysql, pPostgres} {
 		checkEmitHandle(c, pp)
 	}
@@ -862,4 +895,138 @@ func checkNormalizeAllPhases(c *Ctx) {
 	}
 	n, found := f.reach([]point{f.entry()}, isPhase, nilRet, true)
 	c.Check("R01f", "sqlite.(diff).Normalize|index names normalised before every successful return", nodePos(n, fi.Decl.Pos()), !found, "Normalize can return nil at %s without normalising generated index names: the differ compares sqlite_autoindex_* names with the planner's <table>_<cols> names and every later plan drops and recreates the index", c.nodeAtOrEnd(n))
+}
+
+// checkExactDefaults is R01g.
+func checkExactDefaults(c *Ctx) {
+	n := 0
+	c.AllFuncs(false, func(fi *FuncInfo) {
+		if fi.Pkg.PkgPath != pSqlite || !strings.HasSuffix(c.Fset.Position(fi.Decl.Pos()).Filename, "/diff.go") {
+			return
+		}
+		info := fi.Info()
+		lits := map[types.Object]bool{}
+		ast.Inspect(fi.Decl.Body, func(m ast.Node) bool {
+			as, ok := m.(*ast.AssignStmt)
+			if !ok || len(as.Rhs) != 1 || len(as.Lhs) < 1 {
+				return true
+			}
+			if call, ok := as.Rhs[0].(*ast.CallExpr); ok && funcIs(calleeOf(info, call), pSqlx, "", "Unquote") {
+				if id, ok := as.Lhs[0].(*ast.Ident); ok && id.Name != "_" {
+					lits[info.ObjectOf(id)] = true
+				}
+			}
+			return true
+		})
+		if len(lits) == 0 {
+			return
+		}
+		c.funcs[fi.Name] = true
+		for obj := range lits {
+			n++
+			bad := ""
+			var pos token.Pos
+			for _, call := range callsIn(fi.Decl.Body, true) {
+				fn := calleeOf(info, call)
+				if fn == nil || fn.Pkg() == nil {
+					continue
+				}
+				folding := false
+				switch fn.Pkg().Path() {
+				case "strings":
+					switch name := fn.Name(); {
+					case name == "EqualFold", name == "ToLower", name == "ToUpper", name == "Title", name == "Fields", name == "ToTitle", strings.HasPrefix(name, "Trim"):
+						folding = true
+					}
+				case "unicode", "golang.org/x/text/cases":
+					folding = true
+				}
+				if !folding {
+					continue
+				}
+				for _, a := range call.Args {
+					ast.Inspect(a, func(k ast.Node) bool {
+						if id, ok := k.(*ast.Ident); ok && info.ObjectOf(id) == obj {
+							bad, pos = types.ExprString(call), call.Pos()
+						}
+						return true
+					})
+				}
+			}
+			if pos == token.NoPos {
+				pos = obj.Pos()
+			}
+			c.Check("R01g", fi.Name+"|"+obj.Name()+" compared exactly", pos, bad == "", "%s: the unquoted default literal %s is folded by %s before it is compared: defaults that differ only in case (or blanks) are reported as equal, no change is planned and the database keeps the old default", fi.Name, obj.Name(), bad)
+		}
+	})
+	if n == 0 {
+		c.Unresolved("R01g", "sqlx.Unquote results in the SQLite differ (expected in diff.defaultChanged)")
+	}
+}
+
+// checkDiffMode is R01h.
+func checkDiffMode(c *Ctx) {
+	opt := c.Func("R01h", pCmdapi, "", "diffOptions")
+	if opt == nil {
+		return
+	}
+	info := opt.Info()
+	has := nodeHasCall(info, opt.Decl.Body, isCallTo(pSchema, "", "DiffNormalized")) != nil
+	okRet := false
+	ast.Inspect(opt.Decl.Body, func(m ast.Node) bool {
+		if r, ok := m.(*ast.ReturnStmt); ok && len(r.Results) == 1 && nodeHasCall(info, r.Results[0], isCallTo(pSchema, "", "DiffNormalized")) != nil {
+			okRet = true
+		}
+		return true
+	})
+	c.Check("R01h", "diffOptions|includes DiffNormalized", opt.Decl.Pos(), has && okRet, "cmdapi.diffOptions no longer adds schema.DiffNormalized() to the returned options")
+	n := 0
+	c.AllFuncs(false, func(fi *FuncInfo) {
+		if fi.Pkg.PkgPath != pCmdapi {
+			return
+		}
+		info := fi.Info()
+		for _, call := range callsIn(fi.Decl.Body, true) {
+			if !funcIs(calleeOf(info, call), pCmdapi, "", "computeDiff") {
+				continue
+			}
+			n++
+			c.funcs[fi.Name] = true
+			ok := false
+			if call.Ellipsis.IsValid() && len(call.Args) > 0 {
+				last := ast.Unparen(call.Args[len(call.Args)-1])
+				fromHelper := func(e ast.Expr) bool {
+					cl, isCall := ast.Unparen(e).(*ast.CallExpr)
+					return isCall && funcIs(calleeOf(info, cl), pCmdapi, "", "diffOptions")
+				}
+				switch x := last.(type) {
+				case *ast.CallExpr:
+					ok = fromHelper(x)
+				case *ast.Ident:
+					obj := info.ObjectOf(x)
+					defs, good := 0, 0
+					ast.Inspect(fi.Decl.Body, func(m ast.Node) bool {
+						as, isAs := m.(*ast.AssignStmt)
+						if !isAs {
+							return true
+						}
+						for i, l := range as.Lhs {
+							if id, isID := l.(*ast.Ident); isID && info.ObjectOf(id) == obj {
+								defs++
+								if len(as.Rhs) == len(as.Lhs) && fromHelper(as.Rhs[i]) {
+									good++
+								}
+							}
+						}
+						return true
+					})
+					ok = defs > 0 && defs == good
+				}
+			}
+			c.Check("R01h", fi.Name+"|computeDiff options from diffOptions()", call.Pos(), ok, "%s calls computeDiff with options that do not come from diffOptions(): the changes are computed in a different comparison mode than `schema diff` uses (named CHECK constraints are matched by expression, a changed expression is not planned)", fi.Name)
+		}
+	})
+	if n < 2 {
+		c.Unresolved("R01h", "computeDiff call sites in cmdapi (expected schemaApplyRun and schemaDiffRun)")
+	}
 }
